@@ -81,7 +81,7 @@ def gen_value(rng, alphabet, maxlen, allow_ws):
     return v
 
 
-def gen_text(rng, B, file_safe):
+def gen_text(rng, B, file_safe, non_ascii=False):
     icvn = rng.choice(['00401', '00501'])
     while True:
         seg_term = rng.choice(SEG_TERMS)
@@ -96,6 +96,8 @@ def gen_text(rng, B, file_safe):
         break
     # data alphabet: everything printable minus the run's delimiters
     alphabet = ''.join(c for c in PRINTABLE if c not in (seg_term, ele_term, sub_term))
+    if non_ascii and rng.random() < 0.2:
+        alphabet += '\xc9\xe9\xa6\xff'       # bytes outside ASCII in the data of a file named by path
     allow_ws = not file_safe
     layout = rng.choice(['none', 'none', 'lf', 'crlf', 'cr', 'mixed', 'several'])
     if seg_term in '\r\n' and layout != 'none' and rng.random() < 0.7:
@@ -223,7 +225,7 @@ def generate(rng, tier, run, seed=0):
     nconf = rng.choice([2, 3, 3, 4])
     for _ in range(nconf):
         kinds.append(rng.choice(KINDS))
-    file_safe = any(k in ('file_obj', 'path') for k in kinds)
+    file_safe = any(k in ('file_obj',) for k in kinds)      # only a stream the *caller* opened with newline translation needs folding-safe text
     text, layout, feats = gen_text(rng, B, file_safe)
     seg_term = text[105]
     configs = []
@@ -263,7 +265,7 @@ def open_source(cfg, text, log, scratch):
         fobj = open(path, 'r', encoding='ascii', newline='')
         return fobj, (fobj, path), text
     if kind == 'path':
-        return path, (None, path), fold_newlines(text)
+        return path, (None, path), text        # a file named by path is read as it is (no newline folding: a CR may be data or a delimiter)
     raise ValueError(kind)
 
 
@@ -391,6 +393,11 @@ def read_one(text, cfg, out, log, scratch, tag):
     # normal-form law: formatted text == model's normalisation, and reading it again gives equal segments
     text2 = ''.join(formatted)
     want = ref.normal_text()
+    if text2 != want and text2 == ref.normal_text(idonly_sep=True):
+        # the only difference: a segment that is nothing but its identifier gained an element separator (XX~ -> XX*~)
+        out.violate('normalisation', 'normalisation|id-only-separator', '%s: a segment that is only its identifier is formatted with an element '
+                    'separator the input does not have (e.g. %r)' % (tag, next((s.id + ref.ele_term + ref.seg_term for s in ref.segs if not s.trimmed()), '')), config=cfg)
+        return got              # (the re-read law is moot for this configuration: the added separator is itself a reader error)
     if text2 != want:
         j = next((k for k in range(min(len(text2), len(want))) if text2[k] != want[k]), min(len(text2), len(want)))
         out.violate('normalisation', 'normalisation',
@@ -500,7 +507,7 @@ def execute(case):
             same_model = False
         base_cfg, base = results[0]
         for cfg, got in results[1:]:
-            folded = cfg['kind'] in ('file_obj', 'path') or base_cfg['kind'] in ('file_obj', 'path')
+            folded = cfg['kind'] in ('file_obj',) or base_cfg['kind'] in ('file_obj',)
             if folded and not same_model:
                 continue
             if got != base:
